@@ -181,6 +181,34 @@ CLAIMED["C13"] = {
     "the trusted initialise contract).",
 }
 
+CLAIMED["C11"] = {
+    "text": "Proof of a crash invariant over a ghost file system (path -> "
+    "Absent | Torn | Complete(version); rename atomic, open('wb') / dump / "
+    "torch.save non-atomic): asserted after EVERY statement of "
+    "safe_file_dump and of BaseNestedSampler.checkpoint, and in the middle "
+    "of the in-place torch.save of FlowModel.save_weights -- the checkpoint "
+    "file is never torn and what was recoverable stays recoverable "
+    "(file complete and = previous or new, or absent with .old = previous); "
+    "recovery contracts: FlowSampler.check_resume is true iff one of the "
+    "two files exists, FlowSampler._resume_from_file returns a complete "
+    "previous-or-new checkpoint and raises in no state satisfying the crash "
+    "invariant, FlowProposal.resume installs complete previous-or-new "
+    "weights from every state a kill inside save_weights can leave (this "
+    "failed on the pinned tree: torn or missing weights file -> fixed, see "
+    "known_findings.txt). Covers every crash point, with and without "
+    "save_existing.",
+    "note": "Assumed: shutil.move / os.replace are atomic on one file "
+    "system, process kill only (no power-loss / fsync semantics), pickle / "
+    "torch round trips of complete files (library), byte-level prefixes of "
+    "a file being written abstracted to Torn. BaseNestedSampler.resume's "
+    "behaviour on absent / torn files is an assumed contract (open + "
+    "pickle.load). NOT under contract: the importance sampler's "
+    "per-level weights directory (ImportanceFlowModel.update_weights_path "
+    "/ load_all_weights): argued in DESIGN.md (a level file is written "
+    "once and only the first _resume_n_models files are read), not "
+    "machine-checked.",
+}
+
 NA = {
     "C06": "statistical calibration over seeds: no pre/post-condition on a "
     "function expresses a distributional claim and no deductive back end "
